@@ -61,6 +61,9 @@ func genC09J(c *Ctx) *Plan {
 	} else {
 		p.P["h1"] = -1
 	}
+	if len(hosts) > 1 {
+		p.P["veto"] = int64(r.pick(0, 1, 2)) // 1: second host's delegate vetoes the join, 2: joiner vetoes its second merge
+	}
 	p.YieldOff = genYieldOff(r)
 	return p
 }
@@ -98,6 +101,22 @@ func execC09J(c *Ctx) {
 		H := cx.node(h)
 		addrs = append(addrs, net.JoinHostPort(H.ip.String(), "7946"))
 	}
+	veto := int(p.param("veto", 0))
+	merges := 0
+	J.mu.Lock()
+	J.localState = []byte("user-state-of-the-joiner")
+	J.mu.Unlock()
+	if veto == 1 && len(hosts) > 1 {
+		cx.node(hosts[1]).mergeVeto = func([]*Node) error { return errors.New("host vetoes every join") }
+	} else if veto == 2 {
+		J.mergeVeto = func([]*Node) error {
+			merges++
+			if merges >= 2 {
+				return errors.New("joiner vetoes its second merge")
+			}
+			return nil
+		}
+	}
 	done := false
 	var k int
 	var jerr error
@@ -106,6 +125,40 @@ func execC09J(c *Ctx) {
 		done = true
 	}()
 	c.Sim.RunUntil(c.Sim.Now()+30*time.Second, func() bool { return done })
+	if done && veto > 0 {
+		wantK := len(hosts)
+		if veto == 2 {
+			wantK = 1
+		}
+		if k != wantK {
+			c.Violate("join-veto-ignored", "", J.name, "Join(%v) with merge-delegate veto variant %d returned %d successes (err=%v), expected %d", addrs, veto, k, jerr, wantK)
+		}
+		if veto == 1 {
+			// the vetoing host must not have merged the joiner: let its handler finish, deliver nothing
+			c.Sim.holdEvents = true
+			c.Sim.Settle()
+			c.Sim.holdEvents = false
+			// (the host may have heard of the joiner by gossip from the first host meanwhile; what the
+			// veto must prevent is the merge of the joiner's pushed state, observable as its user state)
+			H := cx.node(hosts[1])
+			H.mu.Lock()
+			got := false
+			for _, mr := range H.merged {
+				if string(mr.Buf) == "user-state-of-the-joiner" {
+					got = true
+				}
+			}
+			H.mu.Unlock()
+			if got {
+				c.Violate("join-veto-ignored", "", H.name, "host %s's merge delegate vetoed the join, yet the joiner's pushed state was merged (MergeRemoteState received the joiner's user state)", H.name)
+			}
+		}
+		c.Reach(fmt.Sprintf("multi_host_join_veto%d", veto))
+		c.Res.Nontrivial = true
+		c.Sim.Run(100 * time.Millisecond)
+		cx.finish()
+		return
+	}
 	if !done {
 		c.Violate("join-hung", "", J.name, "Join(%v) did not return within 30s on a fault-free network", addrs)
 		cx.finish()
